@@ -13,7 +13,8 @@ FIELD_VALUES = {
     1: [0, 1, 2, 0x7f, 0x80, 0xfe, 0xff],
     2: [0, 1, 2, 3, 0x7fff, 0x8000, 0xfffe, 0xffff, 0x0101],
     4: [0, 1, 2, 3, 4, 5, 7, 8, 0x7f, 0x80, 0xff, 0x100, 0x7fff, 0x8000,
-        0xffff, 0x10000, 0x7fffffff, 0x80000000, 0xfffffffe, 0xffffffff],
+        0xffff, 0x10000, 0x7fffffff, 0x80000000, 0xfffffffe, 0xffffffff] +
+       [2**32 - k for k in range(3, 40)],
     8: [0, 1, 0xffffffff, 0x100000000, 2**63 - 1, 2**63, 2**64 - 1,
         253402300800, 253402300800000, 2**62],
 }
@@ -34,6 +35,48 @@ def encodable_frame(g, marker, mix, max_body):
 
 TABLE_METHODS = ['Queue.Declare', 'Exchange.Declare', 'Basic.Consume',
                  'Queue.Bind', 'Connection.StartOk', 'Exchange.Bind']
+
+
+STRING_METHODS = ['Basic.Publish', 'Basic.Deliver', 'Basic.Consume',
+                  'Basic.Return', 'Basic.GetOk', 'Queue.Declare',
+                  'Queue.Bind', 'Exchange.Declare', 'Exchange.Bind',
+                  'Basic.ConsumeOk', 'Queue.DeclareOk', 'Basic.Cancel']
+
+
+def string_heavy_frame(r, g, marker):
+    """A method or header frame whose short strings no other frame of the
+    run carries (run-wide distinct names, tags, ids)."""
+    from sim.values import to_desc
+    for _ in range(20):
+        if r.random() < 0.6:
+            name = r.choice(STRING_METHODS)
+            cls = gen.classes()[name]
+            args = {}
+            j = 0
+            for s_ in cls.__slots__:
+                if cls.amqp_type(s_) == 'shortstr' and \
+                        g.arg_mode(cls, s_, 'shortstr') != 'fixed':
+                    j += 1
+                    args[s_] = 'n%d.%d' % (marker, j)
+                elif cls.amqp_type(s_) == 'longlong' and \
+                        g.arg_mode(cls, s_, 'longlong').endswith('required'):
+                    args[s_] = marker
+            d = {'k': 'method', 'cls': name, 'ch': g.channel(), 'args': args}
+        else:
+            props = {}
+            for j, s_ in enumerate(('content_type', 'correlation_id',
+                                    'reply_to', 'message_id', 'message_type',
+                                    'user_id', 'app_id')):
+                if r.random() < 0.7:
+                    props[s_] = 'p%d.%d' % (marker, j)
+            d = {'k': 'header', 'ch': g.channel(), 'body_size': marker,
+                 'props': props}
+        try:
+            return d, gen.encode_frame(d)
+        except Exception:
+            continue
+    d = {'k': 'heartbeat', 'ch': 0}
+    return d, gen.encode_frame(d)
 
 
 def table_heavy_frame(r, g, marker):
@@ -218,8 +261,11 @@ def gen_conn(r, g, population, cfg):
         if frames and r.random() < 0.08:
             # the very same frame again (identical bytes back to back)
             d, data = frames[-1], datas[-1]
-        elif cfg.get('long') and r.random() < 0.6:
-            d, data = table_heavy_frame(r, g, cfg['marker'])
+        elif cfg.get('long') and r.random() < 0.7:
+            if r.random() < 0.5:
+                d, data = table_heavy_frame(r, g, cfg['marker'])
+            else:
+                d, data = string_heavy_frame(r, g, cfg['marker'])
         else:
             d, data = encodable_frame(g, cfg['marker'], mix,
                                       cfg['max_body'])
@@ -347,7 +393,49 @@ def gen_faultsweep_conn(r, g, cfg, kind, tier):
         faults.append({'frame': len(frames), 'kind': label,
                        'patches': patches, 'reframe': reframe})
         frames.append(d)
-    if kind == 'truncsweep':
+    if kind == 'fieldsweep':
+        # every length / flag / tag / id field rewritten to a value set:
+        # 1- and 2-byte fields exhaustively (thorough) or densely (quick),
+        # 4-byte fields to boundaries, neighbours of the true value and of
+        # the remaining length, and "negative" values 2^32-k
+        try:
+            fm = wiremap.walk_frame(data)
+        except Exception:
+            fm = []
+        for f in fm:
+            off, n, fk = f[0], f[1], f[2]
+            if fk not in ('len1', 'len4', 'table_len', 'array_len',
+                          'key_len', 'flags', 'tag', 'scale', 'size',
+                          'class_id', 'method_id', 'bits', 'ftype',
+                          'timestamp'):
+                continue
+            cur = int.from_bytes(data[off:off + n], 'big')
+            top = (1 << (8 * n)) - 1
+            if n == 1:
+                vals = set(range(256)) if tier != 'quick' else \
+                    set(range(0, 256, 5)) | {cur ^ 1, cur + 1, cur - 1,
+                                             0x7f, 0x80, 0xff}
+            elif n == 2:
+                vals = set(range(0, 65536, 257 if tier == 'quick' else 61)) \
+                    | {0, 1, 2, 3, cur | 1, cur + 1, cur - 1, 0x7fff,
+                       0x8000, 0xffff}
+            else:
+                rem = L - off
+                vals = set(range(0, 17)) | \
+                    {cur + d for d in range(-8, 9)} | \
+                    {rem + d for d in range(-12, 5)} | \
+                    {2**31 + d for d in (-2, -1, 0, 1)} | \
+                    {2**(8 * n) - k for k in range(1, 65)} | \
+                    {0x7f, 0x80, 0xff, 0x100, 0xffff, 0x10000,
+                     253402300800, 2**63 - 1, 2**63}
+            for v in sorted(x & top for x in vals):
+                if v == cur:
+                    continue
+                for reframe in ((False, True) if n >= 4 else (True,)):
+                    add([[off, n, v.to_bytes(n, 'big').hex()]],
+                        reframe and fk not in ('size', 'ftype'),
+                        'rewrite:' + fk + '@')
+    elif kind == 'truncsweep':
         for keep in range(7, L - 1):
             add([[keep, L - keep - 1, '']], True, 'truncate@')
         for keep in range(7, L - 1, 3):
@@ -426,6 +514,33 @@ def gen_trace(rng, check, population, tier='quick'):
         maxlen = 2048 if tier == 'quick' else 140000
         for _ in range(r.randint(1, 3)):
             conns.append(gen_sweep_conn(r, g, cfg, maxlen))
+    elif population == 'long_threads':
+        # long histories in 2-3 threads under PCT-style schedules: one
+        # thread is parked at a random line for a long stretch while the
+        # others decode hundreds of frames (cache refills, evictions, pool
+        # growth happen "behind its back")
+        from sim import gen_b
+        g.max_str = 12
+        cfg['nframes'] = r.choice([(100, 200), (150, 300)])
+        cfg['mix'] = (('method', 7), ('header', 3), ('body', 1))
+        cfg['long'] = True
+        cfg['max_body'] = 32
+        cfg['densities'] = [r.choice(['none', 'boundaries', 'sparse'])]
+        cfg['faults'] = set()
+        cfg['corrupt_kinds'] = sorted(set(CORRUPT_KINDS))
+        nthreads = r.choice((2, 2, 3))
+        for _ in range(nthreads):
+            conns.append(gen_conn(r, g, 'frag', cfg))
+        total = sum(len(c['frames']) for c in conns)
+        est = total * 350
+        d = r.randint(1, 6)
+        pts = sorted(r.randint(1, max(2, est)) for _ in range(d))
+        return {'world': 'A', 'check': check, 'population': population,
+                'conns': conns, 'threaded': True,
+                'schedule': [[p_, r.randrange(8)] for p_ in pts],
+                'policy': 'pct:%d' % d,
+                'exit_picks': [r.randrange(8) for _ in range(4)],
+                'first': r.randrange(nthreads)}
     elif population == 'threads':
         # every connection is a real thread (producer + receiver); few
         # method classes per run so that threads meet in the same code
@@ -451,7 +566,7 @@ def gen_trace(rng, check, population, tier='quick'):
             tr['novel'] = {'every': r.choice([1, 1, 2, 3, 5]),
                            'picks': [r.randrange(8) for _ in range(6)]}
         return tr
-    elif population in ('truncsweep', 'bytesweep'):
+    elif population in ('truncsweep', 'bytesweep', 'fieldsweep'):
         conns.append(gen_faultsweep_conn(r, g, cfg, population, tier))
     elif population == 'long':
         for _ in range(r.choice((1, 2, 3))):
